@@ -70,6 +70,14 @@ func C06(run *vf.Run) {
 		_ = json.Unmarshal(bytes.TrimSpace(out.Bytes()), &sum)
 		run.Logf("stress round %d (seed %d): races=%d summary=%s", r, seed, races, strings.TrimSpace(out.String()))
 		if sum == nil {
+			// the program died before its summary: a data race the detector reported, or a fatal runtime error
+			// about concurrent map access, IS the verdict; anything else is a harness problem
+			if races > 0 || strings.Contains(errb.String(), "fatal error: concurrent map") {
+				site := raceSite(errb.String())
+				run.Violate(vf.Violation{Signature: "conc:data-race|" + site, What: fmt.Sprintf("the stress program was killed by the runtime (%d data race report(s), fatal concurrent map access: %v) while transactions ran and WAFs were built / closed concurrently; first at %s",
+					races, strings.Contains(errb.String(), "fatal error: concurrent map"), site), Replay: map[string]any{"family": "stress", "seed": seed, "report": lastLines(errb.String(), 40)}})
+				return
+			}
 			run.Inconclusive("stress program produced no summary (err=%v): %s", err, lastLines(errb.String(), 12))
 			return
 		}
